@@ -13,14 +13,19 @@ args = [a for a in args if a != "--no-suite"]
 meta = None
 if "--meta" in args:
     i = args.index("--meta"); meta = args[i + 1]; del args[i:i + 2]
+base = "HEAD"
+if "--base" in args:
+    i = args.index("--base"); base = args[i + 1]; del args[i:i + 2]
 sd, checks = os.path.abspath(args[0]), args[1:]
+if base == "HEAD" and os.path.exists(os.path.join(sd, "meta.json")):
+    base = json.load(open(os.path.join(sd, "meta.json"))).get("base", "HEAD")  # a change that cannot be re-based keeps its base commit
 d = tempfile.mkdtemp(prefix="vse_")
 wt = os.path.join(d, "wt")
 def sh(cmd, **kw):
     return subprocess.run(cmd, shell=True, capture_output=True, text=True, **kw)
-res = {"seed": os.path.basename(sd), "head": sh("git -C /repo rev-parse --short HEAD").stdout.strip()}
+res = {"seed": os.path.basename(sd), "head": sh(f"git -C /repo rev-parse --short {base}").stdout.strip()}
 try:
-    assert sh(f"git -C /repo worktree add --detach -q {wt} HEAD").returncode == 0
+    assert sh(f"git -C /repo worktree add --detach -q {wt} {base}").returncode == 0
     env = dict(os.environ, PYTHONPATH=f"{wt}/src", PYTHONDONTWRITEBYTECODE="1")
     demo = os.path.join(sd, "demo.py")
     def run_demo():
@@ -50,8 +55,8 @@ if meta is not None:
     prop, _, needs = meta.partition("|")
     if not suite and os.path.exists(os.path.join(sd, "meta.json")):
         res["suite"] = json.load(open(os.path.join(sd, "meta.json")))["confirmed"].get("baseline_suite_with_patch")  # keep the recorded result
-    m = {"breaks_property": prop.strip(), "needs_to_manifest": needs.strip(), "written_by": "independent sub-agent that saw only the property text and a scratch worktree of /repo",
+    m = {**({"base": res["head"]} if base != "HEAD" else {}), "breaks_property": prop.strip(), "needs_to_manifest": needs.strip(), "written_by": "independent sub-agent that saw only the property text and a scratch worktree of /repo",
          "confirmed": {"repo_head": res["head"], "demo_without_patch_exit": res.get("demo_without"), "demo_with_patch_exit": res.get("demo_with"), "baseline_suite_with_patch": res.get("suite"),
-                       "how": "tools/seed_eval.py: scratch worktree of /repo HEAD, git apply patch.diff, demo.py with PYTHONPATH=<worktree>/src before and after, full pytest suite, ./check <ID> --tier %s with VERIF_REPO_SRC=<worktree>/src" % tier},
+                       "how": "tools/seed_eval.py: scratch worktree of /repo " + ("HEAD" if base == "HEAD" else "at " + res["head"]) + ", git apply patch.diff, demo.py with PYTHONPATH=<worktree>/src before and after, full pytest suite, ./check <ID> --tier %s with VERIF_REPO_SRC=<worktree>/src" % tier},
          "checks": {k[6:]: v for k, v in res.items() if k.startswith("check_")}}
     json.dump(m, open(os.path.join(sd, "meta.json"), "w"), indent=1)
